@@ -17,12 +17,17 @@
    argument - C05_no_repeats_safe -, or repeated arguments written the way the library prints them, e.g. (f a a),
    (g a a b), with distinct keys):
      C09_roundtrip           the export parses, the result has the same observables, and a second round too
-     C09_empty_sections      empty sections stay empty *)
+     C09_empty_sections      empty sections stay empty
+   EVERY ACCEPTED TEXT.  The grammar of Spec/Problem.v excludes object sections that declare a name again or nest lists
+   deeper; the parser accepts them (Props/C05.v: C05_objects_any_text, C05_repeated_objects, C05_private_flattened) and
+   returns for such a text what it returns for its normal form [normal_objects e] (C05_objects_normal_form):
+     C09_roundtrip_any_objects  the round trip for every accepted text whose NORMAL FORM is in the grammar - the exporter
+                                writes the object table in the normal form itself (C09_export_objects_normal) *)
 From Coq Require Import List String Bool PrimFloat.
 From Verif Require Import Base.Result Base.Str Base.Sexp Base.PyDict Model.Domain Model.NumExpr Model.Problem
   Model.ProblemObs Model.ProblemExporter Spec.Pddl Spec.Grammar Spec.Problem
   Proofs.C05_Items Proofs.C05_Parse Proofs.C05_Faithful Proofs.C05_Repeats Proofs.C05_Examples Proofs.C05_Main
-  Proofs.C09_Export Proofs.C09_Round Proofs.C09_Main Proofs.C09_Examples.
+  Proofs.C09_Export Proofs.C09_Round Proofs.C09_Main Proofs.C09_Examples Spec.ProblemObjects Proofs.C09_AnyObjects.
 Import ListNotations.
 Open Scope string_scope.
 
@@ -106,6 +111,18 @@ Theorem C09_example_empty_thm :
     dump_problem pb' = {| pd_name := "pr"; pd_objects := []; pd_facts := []; pd_fluents := []; pd_goal := []; pd_goal_num := [] |}.
 Proof. exact C09_example_empty. Qed.
 
+Theorem C09_roundtrip_any_objects : forall num repr_text dom, dom_ok dom -> num_ok num -> forall gt e sp pb,
+  parse_problem (cfg_gt gt) num dom e = Ok pb ->
+  read_problem num (normal_objects e) = Some sp -> repr_ok num repr_text sp -> safe_repeats sp = true -> sp_name sp <> "" ->
+  exists pb', parse_problem (cfg_gt gt) num dom (export_problem repr_text None (d_name dom) pb) = Ok pb' /\
+              same_obs pb' pb /\
+  exists pb'', parse_problem (cfg_gt gt) num dom (export_problem repr_text None (d_name dom) pb') = Ok pb'' /\
+               same_obs pb'' pb.
+Proof. exact C09_roundtrip_any_objects_lemma. Qed.
+
+Theorem C09_export_objects_normal : forall objs : pydict string, export_objects objs = objects_text objs.
+Proof. exact export_objects_normal. Qed.
+
 Print Assumptions C09_roundtrip.
 Print Assumptions C09_roundtrip_any_goal_check.
 Print Assumptions C09_same_obs_equiv.
@@ -116,3 +133,5 @@ Print Assumptions C09_nonvacuous_repeats.
 Print Assumptions C09_pinned_refuted.
 Print Assumptions C09_example.
 Print Assumptions C09_example_empty_thm.
+Print Assumptions C09_roundtrip_any_objects.
+Print Assumptions C09_export_objects_normal.
